@@ -56,7 +56,7 @@ CHECKS = {
         design_ref="DESIGN.md section 5 / C01",
         note="Proved: lexing layer and character tables; store layer see C04/C06. The composition events -> loaded changes = canon is validated differentially, not proved. "
              "The header is generated by the harness (declarations are given to the model); header parsing is C09. f64 parsing is supplied by the generator. "
-             "Known findings F5a, F24, FMT are reported as KNOWN-FINDING.",
+             "Known findings F5a, FMT are reported as KNOWN-FINDING (F24 is fixed).",
     ),
     "C14": dict(
         technique="Lean 4 proof (stop-position irrelevance of the body parser by induction) + differential run of 14 entry-point combinations on generated and corpus files",
